@@ -669,13 +669,13 @@ func (c *ctl) issue(cmd *Cmd) {
 			func() {
 				defer func() {
 					if r := recover(); r != nil {
-						c.emit(Ev{E: "sendpanic", I: i, V: v})
+						c.emit(Ev{E: "sendpanic", I: i, V: v, K: -1})
 						done = true
 					}
 				}()
 				select {
 				case ch <- v:
-					c.emit(Ev{E: "sent", I: i, V: v})
+					c.emit(Ev{E: "sent", I: i, V: v, K: -1}) // K = -1: completed inline, no parked sender involved
 					done = true
 				default:
 				}
@@ -767,7 +767,9 @@ func (c *ctl) step(cmd Cmd, wins *[]Window) {
 	for _, d := range w.Done {
 		switch d.E {
 		case "sent", "sendpanic":
-			c.sendPend[d.I] = false
+			if d.K != -1 {
+				c.sendPend[d.I] = false
+			}
 		case "got":
 			c.recvPend[d.O] = false
 			if !d.Ok {
